@@ -71,6 +71,8 @@ enum Op {
     CompactBig(u64, i32, u64),
 }
 
+static BIG_CAP: AtomicU64 = AtomicU64::new(0);
+
 fn orient(o: u8) -> Orientation {
     match o % 6 {
         0 => Orientation::UV,
@@ -153,6 +155,11 @@ fn exec_inner(op: &Op) -> Result<Vec<u64>, String> {
             let mut v = a5::cell_to_children(*c, Some(a5::get_resolution(*c) + *depth))?;
             let i = (*drop as usize) % v.len();
             v.remove(i);
+            let cap = BIG_CAP.load(Ordering::Relaxed) as usize;
+            if cap > 0 && v.len() > cap {
+                // (quick tier: just past the size thresholds that matter, not four times past)
+                v.truncate(cap);
+            }
             let out = a5::compact(&v)?;
             // (a digest keeps the comparison cheap under the interpreter)
             let mut h: u64 = 0xcbf29ce484222325;
@@ -376,6 +383,7 @@ fn main() {
     let mut population_arg: usize = 0;
     let mut big_arg: usize = 0;
     let mut big_variant: usize = 0;
+    let mut big_cap: usize = 0;
     let mut print_refs = false;
     let mut expect: Option<u64> = None;
     let mut i = 2;
@@ -395,6 +403,10 @@ fn main() {
             }
             "--big" => {
                 big_arg = args[i + 1].parse().unwrap_or(0);
+                i += 2;
+            }
+            "--cap" => {
+                big_cap = args[i + 1].parse().unwrap_or(0);
                 i += 2;
             }
             "--variant" => {
@@ -457,6 +469,7 @@ fn main() {
             plans.push(if t == 0 { vec![op.clone(), Op::TlForward((1.3f64).to_bits(), (0.21f64).to_bits(), 0), op] } else { vec![op] });
         }
     }
+    BIG_CAP.store(big_cap as u64, Ordering::Relaxed);
     if big_arg > 0 {
         // Big-input profile (seeded change c13-as: a process-wide arena for inputs of 8 192 cells
         // and more, claimed with a non-atomic flag). Two free-running threads, one call each, on
@@ -465,13 +478,13 @@ fn main() {
         let d = big_arg as i32;
         if big_variant == 1 {
             // both threads trace a dense boundary (different cells): 5 * segments vertices each
-            let seg = if d >= 7 { 2048 } else { 1 << (d + 3) };
+            let seg = if big_cap > 0 { (big_cap / 5) as i32 } else if d >= 7 { 2048 } else { 1 << (d + 3) };
             plans = vec![vec![Op::Boundary(res0_cell(r.next()), seg)], vec![Op::Boundary(res0_cell(r.next() | 1) ^ (1u64 << 58), seg)]];
         } else {
             // both threads compact a big set (different ones); some executions add a second kind
             let mut p0 = vec![Op::CompactBig(res0_cell(r.next()), d, r.next())];
             let mut p1 = vec![Op::CompactBig(res0_cell(r.next() | 1), d, r.next())];
-            match r.below(3) {
+            match if big_cap > 0 { 0 } else { r.below(3) } {
                 0 => {}
                 1 => p1.push(Op::UncompactTo(res0_cell(r.next()), d)),
                 _ => {
